@@ -551,6 +551,52 @@ def r19_9(prog, rep, rid="R19.9"):
         rep.broken_("rule=%s expected >=2 inline signed-container functions, analysed %d" % (rid, n))
 
 
+def r19_10(prog, rep, rid="R19.10"):
+    """`bi >> 1` is the stored *number* only while the tag bit says `single value`; in bitset representation it is the membership mask.
+    Every comparison of `bi >> 1` with a value in the unsigned containers' functions must lie behind the tag test (on its `tag set`
+    edge) — a test in front of it takes a mask whose numeric value happens to equal the new member for `already there`."""
+    from ..flow import edge_dominates
+    n = 0
+    for name in ("ass_bui31", "ass_bui63", "bui31_has_bit_p", "bui63_has_bit_p"):
+        if not prog.has_fn(name):
+            continue
+        f = prog.fn(name)
+        cfg = f.cfg
+        bi = f.params[0]["n"]
+        tags = []
+        for b in cfg.blocks:
+            c = cfg.cond(b)
+            if c is None:
+                continue
+            c_ = strip(c)
+            neg = False
+            while isinstance(c_, dict) and c_.get("k") == "un" and c_["op"] == "!":
+                neg = not neg
+                c_ = strip(c_["e"])
+            if isinstance(c_, dict) and c_.get("k") == "bin" and c_["op"] == "&" and int_value(c_["r"]) == 1 and lv(strip_casts(c_["l"])) == bi:
+                tags.append((b, 1 if neg else 0))       # successor index taken when the tag is set
+        k = 0
+        for b, i, x, line in cfg.all_elems():
+            if not isinstance(x, dict):
+                continue
+            for nn in walk(x):
+                if nn.get("k") == "bin" and nn["op"] in ("==", "!="):
+                    for side in ("l", "r"):
+                        e = strip_casts(nn[side])
+                        if e.get("k") == "bin" and e["op"] == ">>" and int_value(e["r"]) == 1 and lv(strip_casts(e["l"])) == bi:
+                            k += 1
+                            n += 1
+                            key = "%s/number-compare#%d" % (name, k)
+                            if any(edge_dominates(cfg, tb, si, b) for tb, si in tags):
+                                rep.ok(rid, key, f.loc(nn.get("line", line)), "`%s` is compared as a number only where the tag says `single value`" % show(e))
+                            else:
+                                rep.fail(rid, key, f.loc(nn.get("line", line)), "`%s` is compared with a value without the tag bit having been tested: in bitset "
+                                         "representation it is the membership mask, and a mask that happens to equal the value (members {1,2}, value 6) "
+                                         "makes the new member look already present" % show(nn)[:50])
+    if n < 1:
+        rep.broken_("rule=%s expected >=1 number comparison in the unsigned containers, found %d" % (rid, n))
+
+
 def r19_5(prog, rep, rid="R19.5"):
     """Tag-bit discipline of the assign functions.  Bit 0 of the positive word is the representation tag
     (one integer / native list vs bitset).  (a) ass_bi31/ass_bi63: every member bit that goes into the positive word is
@@ -710,5 +756,38 @@ def r19_6(prog, rep, rid="R19.6"):
         else:
             rep.fail(rid, key, f.loc(), "after the tag word has been reset the bound of the re-insertion loop evaluates to 0: the loop body is dead, all "
                      "natively stored members are dropped when the container switches to the bitset")
-    if n < 8:
-        rep.broken_("rule=%s expected >=8 instances, found %d" % (rid, n))
+    # (d) the scratch copy and the re-insertion loop cover the container's whole native list
+    for name in ("ass_bi383", "ass_bi447"):
+        f = prog.fn(name)
+        cfg = f.cfg
+        ty = (f.params[0].get("t") or "").replace("__restrict", "").replace("restrict", "").replace("*", "").strip()
+        rec = prog.record(ty)
+        neg = [fl for fl in rec["fields"] if fl["n"] == "neg"][0]
+        cap = neg.get("extent")
+        esz = neg.get("elemsize") or 4
+        n += 1
+        key = "%s/degrade-covers-native-list" % name
+        short = []
+        for S in call_sites(f, "memcpy"):
+            srcs = lv(strip_casts(cfg.resolve(S.node["a"][1])))
+            if srcs.endswith("->neg") or srcs.endswith(".neg"):
+                sz = const_eval(f, cfg.resolve(S.node["a"][2]))
+                if sz is None or sz < cap * esz:
+                    short.append("memcpy of %s bytes for a native list of %d x %d" % (sz, cap, esz))
+        loops = cfg.natural_loops()
+        for h, blks in loops.items():
+            if not any((c.get("fn") or "").startswith("ass_bs") for b in blks for e in cfg.blocks[b].elems if isinstance(e["x"], dict) for c in calls(e["x"])):
+                continue
+            c = cfg.cond(h)
+            for a_ in cond_atoms(c, True) if c is not None else []:
+                if len(a_) == 5 and a_[0] == "<":
+                    bound = const_eval(f, a_[4])
+                    if bound is not None and bound < cap:
+                        short.append("re-insertion loop runs to %d of %d native slots" % (bound, cap))
+        if short:
+            rep.fail(rid, key, f.loc(), "when %s switches to the bitset it saves / re-inserts fewer members than the native list holds (%s): the last "
+                     "natively stored members are dropped" % (ty, "; ".join(short)))
+        else:
+            rep.ok(rid, key, f.loc(), "scratch copy and re-insertion cover all %d native slots of %s" % (cap, ty))
+    if n < 10:
+        rep.broken_("rule=%s expected >=10 instances, found %d" % (rid, n))
